@@ -7,6 +7,7 @@ try:
 except ImportError:
     from inspect import getargspec as _getargspec  # Python 2
 import warnings
+from inspect import signature as _signature
 
 import autograd.numpy as np
 
@@ -81,7 +82,8 @@ def holomorphic_grad(fun, x):
 def grad_named(fun, argname):
     """Takes gradients with respect to a named argument.
     Doesn't work on *args or **kwargs."""
-    arg_index = _getargspec(fun).args.index(argname)
+    # (the parameters a CALL of fun can bind: a bound method's or a callable object's `self` is not among them)
+    arg_index = list(_signature(fun).parameters).index(argname)
     return grad(fun, arg_index)
 
 
